@@ -19,8 +19,40 @@ class Calls:
         self.mod = mod
 
     # ---------------------------------------------------------------- entry
+    def abstract_args(self, cx, e, sig):
+        """arguments of an abstract operation matched against its declared signature (positional, keywords, defaults)"""
+        names = sig.get("params") or [None] * len(sig["args"])
+        given = dict(enumerate(e.args))
+        for k in e.keywords:
+            if k.arg not in names:
+                raise Unsupported("keyword argument %s is not declared for %s" % (k.arg, ast.unparse(e.func)), e)
+            given[names.index(k.arg)] = k.value
+        out = []
+        for i, t in enumerate(sig["args"]):
+            if i in given:
+                s_, ta = cx.ex(given[i])
+                out.append(cx.coerce(s_, ta, t, e, "argument of %s" % ast.unparse(e.func)))
+            elif sig.get("defaults") and sig["defaults"][i] is not None:
+                out.append(sig["defaults"][i])
+            else:
+                raise Unsupported("missing argument %d of %s" % (i, ast.unparse(e.func)), e)
+        if len(given) > len(sig["args"]):
+            raise Unsupported("too many arguments of %s" % ast.unparse(e.func), e)
+        return out
+
     def call(self, cx, e):
         f = e.func
+        key = ast.unparse(f)
+        if key in self.mod.call_through:                 # f(label, g) == g()
+            g = e.args[self.mod.call_through[key]]
+            return self.call(cx, ast.Call(func=g, args=[], keywords=[]))
+        if key in self.mod.reads:
+            sig = self.mod.reads[key]
+            args = self.abstract_args(cx, e, sig)
+            return "(" + " ".join(["F.%s" % ident(sig["name"]), "self.%s" % ident(self.mod.spec["world"])] + args) + ")", sig["ret"]
+        if key in self.mod.effects:
+            raise Unsupported("call of the state-changing operation %s inside an expression (only allowed as a statement, right-hand side, "
+                              "condition or return value)" % key, e)
         name = dotted(f)
         lib = self.mod.canon(name) if name is not None else None
         if any(isinstance(a, ast.Starred) for a in e.args) and lib != "itertools.product":
@@ -43,6 +75,21 @@ class Calls:
                 return m(cx, e)
         if name is not None and name in self.mod.ext_classes:
             return self.ext_ctor(cx, name, e)
+        if isinstance(f, ast.Attribute) and isinstance(f.value, ast.Name) and f.value.id == "self" and cx.fn.is_method and f.attr in self.mod.abstract:
+            sig = self.mod.abstract[f.attr]
+            if e.keywords or len(e.args) != len(sig["args"]):
+                raise Unsupported("arguments of the abstract method %s do not match its declared signature" % f.attr, e)
+            args = []
+            for a, t in zip(e.args, sig["args"]):
+                s_, ta = cx.ex(a)
+                args.append(cx.coerce(s_, ta, t, e, "argument of %s" % f.attr))
+            return "(" + " ".join(["F.%s" % ident(f.attr)] + (args or ["()"])) + ")", sig["ret"]
+        ov = cx.object_var_method(e)
+        if ov is not None:
+            var, o, m = ov
+            if m["mutates"]:
+                raise Unsupported("call of the state-changing method %s.%s inside an expression (only allowed as a statement)" % (var, f.attr), e)
+            return self.object_call(cx, e, None, o, m, recv=ident(var)), m["ret"]
         om = self.mod.object_method(cx.fn, e)
         if om is not None:
             field, o, m = om
@@ -61,9 +108,11 @@ class Calls:
 
     def resolve_translated(self, cx, f):
         """-> (FuncInfo, passes_self) or None"""
+        if ast.unparse(f) in self.mod.effects or ast.unparse(f) in self.mod.reads:
+            return None
         if isinstance(f, ast.Attribute) and isinstance(f.value, ast.Name):
-            if f.value.id == "self" and cx.fn.is_method and f.attr in self.mod.funcs and self.mod.funcs[f.attr].cls:
-                fn = self.mod.funcs[f.attr]
+            if f.value.id == "self" and cx.fn.is_method and self.mod.method_for(cx.fn, f.attr) is not None:
+                fn = self.mod.method_for(cx.fn, f.attr)
                 return fn, not fn.is_static
             if f.value.id == self.mod.cls_name and f.attr in self.mod.funcs and self.mod.funcs[f.attr].cls:
                 fn = self.mod.funcs[f.attr]
@@ -74,15 +123,21 @@ class Calls:
             return self.mod.funcs[f.id], False
         return None
 
-    def object_call(self, cx, e, field, o, m):
-        """term `<namespace>.<method> self.<field> args`"""
-        if e.keywords or len(e.args) != len(m["args"]):
-            raise Unsupported("arguments of %s.%s do not match its declared signature" % (field, e.func.attr), e)
+    def object_call(self, cx, e, field, o, m, recv=None):
+        """term `<namespace>.<method> <receiver> args` (receiver: self.<field> or a variable)"""
+        names = m.get("params") or [None] * len(m["args"])
+        given = dict(zip(range(len(e.args)), e.args))
+        for k in e.keywords:
+            if k.arg not in names:
+                raise Unsupported("keyword argument %s of %s is not declared" % (k.arg, e.func.attr), e)
+            given[names.index(k.arg)] = k.value
+        if sorted(given) != list(range(len(m["args"]))):
+            raise Unsupported("arguments of %s do not match its declared signature" % e.func.attr, e)
         args = []
-        for a, t in zip(e.args, m["args"]):
-            s, ta = cx.ex(a)
+        for i, t in enumerate(m["args"]):
+            s, ta = cx.ex(given[i])
             args.append(cx.coerce(s, ta, t, e, "argument of %s" % e.func.attr))
-        return "(" + " ".join(["%s.%s" % (o["namespace"], ident(e.func.attr)), "self.%s" % ident(field)] + args) + ")"
+        return "(" + " ".join(["%s.%s" % (o["namespace"], ident(e.func.attr)), recv or "self.%s" % ident(field)] + args) + ")"
 
     def record_getter(self, cx, e, f):
         """`obj.get_x()` on a declared record class: an argument-free observer, modelled as a field of the record"""
@@ -120,7 +175,7 @@ class Calls:
     def translated_call(self, cx, fn, with_self, e, self_term="self"):
         args = self.bind_args(cx, fn, e)
         head = fn.lean_name if fn is not cx.fn else cx.rec_head()
-        parts = [head] + ([self_term] if with_self else []) + args
+        parts = [head] + (["F"] if fn.uses_abstract else []) + ([self_term] if with_self else []) + args
         return "(" + " ".join(parts) + ")", fn.result_type()
 
     # ---------------------------------------------------------------- builtins
@@ -164,8 +219,24 @@ class Calls:
 
     def lib_int(self, cx, e):
         (s, t), = self.one(cx, e)
-        k = cx.need(t, ("int", "rat"), e, "argument of int()")
+        k = cx.need(t, ("int", "rat", "bool"), e, "argument of int()")
+        if k == "bool":
+            return "(PyRt.boolToInt %s)" % s, TInt
         return (s, TInt) if k == "int" else ("(PyRt.truncQ %s)" % s, TInt)
+
+    def lib_sorted(self, cx, e):
+        (s, t), = self.one(cx, e)
+        cx.need(t, ("list", "set", "arr"), e, "argument of sorted()")
+        unify(t.find().args[0], TInt, e, "elements of sorted()")
+        return "(PyRt.sorted %s)" % s, TList(TInt)
+
+    def lib_reversed(self, cx, e):
+        (s, t), = self.one(cx, e)
+        cx.need(t, ("list", "arr"), e, "argument of reversed()")
+        return "(List.reverse %s)" % s, TList(t.find().args[0])
+
+    def lib_numpy_sum(self, cx, e):
+        return self.lib_sum(cx, e)
 
     def lib_math_ceil(self, cx, e):
         (s, t), = self.one(cx, e)
@@ -224,11 +295,38 @@ class Calls:
             raise Unsupported("numpy constructor supported only as %s(<%d args>, dtype=int)" % (dotted(e.func), npos), e)
 
     def lib_numpy_array(self, cx, e):
+        if len(e.args) == 1 and not e.keywords:        # np.array(x) / np.asarray(x) of a (nested) sequence: the same values
+            s, t = cx.ex(e.args[0])
+            cx.need(t, ("list", "arr"), e, "argument of np.array / np.asarray")
+            return s, t
         self.int_dtype(e, 1)
         s, t = cx.ex(e.args[0])
         cx.need(t, ("list", "arr"), e, "argument of np.array")
         unify(t.find().args[0], TInt, e, "np.array(dtype=int)")
         return s, TArr(TInt)
+
+    lib_numpy_asarray = lib_numpy_array
+
+    def lib_numpy_empty(self, cx, e):
+        a = e.args[0] if len(e.args) == 1 and not e.keywords else None
+        if not (isinstance(a, ast.Tuple) and len(a.elts) == 2 and isinstance(a.elts[0], ast.Constant) and a.elts[0].value == 0):
+            raise Unsupported("np.empty is supported only as np.empty((0, n)) (no rows)", e)
+        s, t = cx.ex(a.elts[1])
+        unify(t, TInt, e, "row length of np.empty")
+        return "[]", TList(TList(TVar()))
+
+    def lib_zip(self, cx, e):
+        (a, ta), (b, tb) = self.one(cx, e, 2)
+        cx.need(ta, ("list", "arr"), e, "first argument of zip()")
+        cx.need(tb, ("list", "arr"), e, "second argument of zip()")
+        return "(List.zip %s %s)" % (a, b), TList(TProd([ta.find().args[0], tb.find().args[0]]))
+
+    def lib_numpy_zeros(self, cx, e):
+        if len(e.args) != 1 or e.keywords:
+            raise Unsupported("np.zeros is supported as np.zeros(n) (a float vector)", e)
+        s, t = cx.ex(e.args[0])
+        unify(t, TInt, e, "np.zeros size")
+        return "(List.replicate (Int.toNat %s) ((0 : Int) : Rat))" % s, TList(TRat)
 
     def lib_numpy_ones(self, cx, e):
         self.int_dtype(e, 1)
@@ -274,6 +372,39 @@ class Calls:
             raise Unsupported(".items() on a non-dict", e)
         return s, TList(TProd([t.find().args[0], t.find().args[1]]))
 
+    def meth_get(self, cx, e, obj):
+        s, t = cx.ex(obj)
+        if kind(t) != "dict" or e.keywords or len(e.args) not in (1, 2):
+            raise Unsupported(".get() on a non-dict", e)
+        k, tk = cx.ex(e.args[0])
+        unify(tk, t.find().args[0], e, "key of .get()")
+        tv = t.find().args[1]
+        if len(e.args) == 1 or (isinstance(e.args[1], ast.Constant) and e.args[1].value is None):
+            return "(PyRt.dictGet? %s %s)" % (s, k), TOpt(tv)
+        d, td = cx.ex(e.args[1])
+        d = cx.coerce(d, td, tv, e, "default of .get()")
+        return "(Option.getD (PyRt.dictGet? %s %s) %s)" % (s, k, d), tv
+
+    def meth_keys(self, cx, e, obj):
+        s, t = cx.ex(obj)
+        if kind(t) != "dict" or e.args or e.keywords:
+            raise Unsupported(".keys() on a non-dict", e)
+        return "(List.map (fun p => p.1) %s)" % s, TList(t.find().args[0])
+
+    def meth_values(self, cx, e, obj):
+        s, t = cx.ex(obj)
+        if kind(t) != "dict" or e.args or e.keywords:
+            raise Unsupported(".values() on a non-dict", e)
+        return "(List.map (fun p => p.2) %s)" % s, TList(t.find().args[1])
+
+    def meth_reshape(self, cx, e, obj):
+        s, t = cx.ex(obj)
+        if kind(t) not in ("list", "arr") or e.keywords or len(e.args) != 1:
+            raise Unsupported(".reshape() on an unsupported value", e)
+        cx.ex(e.args[0]) if not isinstance(e.args[0], ast.Tuple) else [cx.ex(x) for x in e.args[0].elts]
+        cx.mod.record("assumed", cx.fn, e, "`%s` keeps the rows (it raises unless the array already has that shape)" % ast.unparse(e))
+        return s, t
+
     def meth_copy(self, cx, e, obj):
         s, t = cx.ex(obj)
         if e.args or e.keywords or kind(t) not in ("list", "set", "dict", "arr"):
@@ -281,4 +412,4 @@ class Calls:
         return s, t
 
 
-BUILTINS = {"tuple", "list", "set", "len", "sum", "abs", "max", "min", "range", "map", "int", "all", "any"}
+BUILTINS = {"tuple", "list", "set", "len", "sum", "abs", "max", "min", "range", "map", "int", "all", "any", "sorted", "reversed", "zip"}
